@@ -85,7 +85,10 @@ Record world := mkW {
   reg : list (nat * nat);               (* class name -> heap index *)
   gfs : list (nat * gf);                (* gkey -> generic *)
   insts : list inst }.
-Definition w0 : world := mkW [] [] [] [].
+(* the state every case starts from: no class, no instance, and the user generic with the one method the harness
+   gives it at set-up, a primary on t that records nothing (since repo_fixes/C10-3 a call whose only applicable
+   methods are :before daemons is no-applicable-method, so a generic with :before methods only cannot be called) *)
+Definition w0 : world := mkW [] [] [(gkey KU 0, mkGF [TT] [])] [].
 
 Definition get (w : world) (id : nat) : option cobj := nth_error (heap w) id.
 Definition with_heap (w : world) (h : list cobj) : world := mkW h (reg w) (gfs w) (insts w).
@@ -212,9 +215,16 @@ Definition slot_methods (w : world) (n : nat) (sd : slotdef) : world :=
   if sd_accessor sd then add_method (add_method w2 (gkey KAR s) n) (gkey KAW s) n else w2.
 
 (* Aux.Call up to the choice of the effective method: the cache is keyed by Hierarchy()[0], the class
-   NAME; a miss walks the argument's hierarchy (its precedence list) and keeps the names that have a method; an empty
-   result is not cached (no-applicable-method).  None: no applicable method / the instance does not exist. *)
+   NAME; a miss walks the argument's hierarchy (its precedence list) and keeps the names that have a method
+   (buildCacheMeth); since repo_fixes/C10-3 the result is an effective method only if one of them is a primary:
+   the methods of the accessor generics are primaries, those of the user generic are :before daemons except the
+   one on t.  A result that is not callable is not cached (no-applicable-method).  None: no applicable method /
+   the instance does not exist.  (Aux.defaultCaller - a generic whose only method is an unqualified one on t is
+   called directly - is not modelled: it answers what this dispatch answers and the only entries the model caches
+   in that situation are "class name -> the method on t".) *)
 Definition applicable (g : gf) (prec : list nat) : list nat := filter (fun h => memb h (g_methods g)) prec.
+Definition callable (k : nat) (l : list nat) : bool :=
+  if Nat.eqb k (gkey KU 0) then memb TT l else negb (is_nil l).
 (* StandardObject.Hierarchy (repo_fixes/C12-3): the precedence list of the class of the instance; (t) while
    that class is not ready (it inherits a class that was redefined with a superclass not defined yet) *)
 Definition hier_of (prec : list nat) : list nat := match prec with [] => [TT] | _ => prec end.
@@ -233,10 +243,10 @@ Definition call_gf (w : world) (k i : nat) : world * option (list nat) :=
               match lookup (g_cache g) key with
               | Some l => (w, Some l)
               | None =>
-                  match applicable g (hier c) with
-                  | [] => (w, None)
-                  | l => (with_gfs w (set_assoc (gfs w) k (mkGF (g_methods g) (set_assoc (g_cache g) key l))), Some l)
-                  end
+                  let l := applicable g (hier c) in
+                  if callable k l
+                  then (with_gfs w (set_assoc (gfs w) k (mkGF (g_methods g) (set_assoc (g_cache g) key l))), Some l)
+                  else (w, None)
               end
           end
       end
@@ -432,6 +442,6 @@ Definition step (w : world) (o : op) (rorder corder : list nat) : world * obs :=
   | ODispatch i =>
       match call_gf w (gkey KU 0) i with
       | (w1, None) => (w1, OErr)
-      | (w1, Some l) => (w1, ONames l)
+      | (w1, Some l) => (w1, ONames (filter (fun h => negb (Nat.eqb h TT)) l))   (* the primary on t records nothing *)
       end
   end.
